@@ -26,7 +26,7 @@ NOT_DECIDED = ["float32/float64 storage exactness and memory-mapped vs in-memory
                "astropy's unit string formatting and parsing being inverse of each other (library)"]
 ASSUMPTIONS = ["the FITS library stores table columns in insertion order and HDUs in list order"]
 TRUSTED = ["python ast", "astropy.io.fits / astropy.table semantics"]
-MIN = {'AGREE-4': 8, 'AGREE-5': 8, 'AGREE-3': 6, 'API-2': 1, 'PERM-4': 5, 'PERM-5': 9, 'PERM-6': 1, 'CFG-8': 2, 'AXIS': 7}
+MIN = {'AGREE-4': 18, 'AGREE-5': 14, 'AGREE-3': 10, 'API-2': 1, 'PERM-4': 24, 'PERM-5': 20, 'AXIS': 9}
 
 
 def reversal_block(fi, obj):
@@ -193,27 +193,61 @@ def check_get_sed(ctx):
                  detail_ok='sed.%s == %s[first m with names[m] == model_name, :, :]' % (tgt, 'val' if tgt == 'flux' else 'unc'))
     for tgt, ref, dims in (('name', _sym('qname'), ()), ('distance', _sym('dist'), ()), ('wav', _sym('cwav', N), (N,)), ('nu', _alg.mk_fn('spectral', _alg.P(_sym('cwav', N))), (N,)), ('apertures', _sym('cap', A), (A,))):
         _compare(ctx, 'AXIS', 'get_sed carries %s over' % tgt, where_, get(tgt), ref, dims, vocab=vocab, fns=fns, detail_ok='copied from the cube')
+    # a cube without uncertainties: the SED is still extracted (nothing is subscripted that is absent) and carries no error
+    I2 = _Interp(repo, _AxisHooks())
+    o2 = _Obj(repo.cls('sed.cube', 'SEDCube'), dict(o.attrs))
+    o2.attrs['_unc'] = None
+    out2 = I2.call(gs, [_scalar(_sym('qname'))], selfv=o2)
+    if isinstance(out2, _Obj):
+        _compare(ctx, 'AXIS', 'get_sed flux (cube without uncertainties)', where_, I2.getattr(out2, 'flux', None, gs.module), _alg.mk_fn('at', _alg.B(M, _sym('cubeval', M, A, N)), _alg.P(pos)), (A, N),
+                 vocab=vocab, fns=fns, findings=I2.findings, detail_ok='extracted as before')
+        e2 = out2.attrs.get('_error', out2.attrs.get('error'))
+        ctx.expect(e2 is None, 'AXIS', 'get_sed error (cube without uncertainties)', where_, 'absent uncertainties give an SED without errors', 'error is %r' % (e2,), 'get-sed-no-unc')
+    else:
+        _compare(ctx, 'AXIS', 'get_sed (cube without uncertainties)', where_, out2, _alg.Poly(), findings=I2.findings)
 
 
 def run(ctx):
+    """The round trips are decided by interpreting writer and reader on a symbolic file (roundtrip.py). The older syntactic rules (column / keyword
+    agreement tables, the reversal block, the order applied in SED.write, the None guards) run only for a family whose interpretation did not reach a
+    verdict, and then they may only say "undecided": they recognise one way of writing the code."""
+    from .. import roundtrip
     repo = ctx.repo
-    # ---- writer / reader agreement
-    sw, sr = repo.func('sed.sed', 'SED.write'), repo.func('sed.sed', 'SED.read')
-    fitsmodel.check_pair(ctx, 'AGREE-4', sw, sr, {k: k for k in ('name', 'distance', 'apertures', 'wav', 'nu', 'flux', 'error')}, where, [('distance', 'DISTANCE')])
-    cw, cr = repo.func('sed.cube', 'BaseCube.write'), repo.func('sed.cube', 'BaseCube.read')
-    fitsmodel.check_pair(ctx, 'AGREE-5', cw, cr, {k: k for k in ('distance', 'valid', 'names', 'wav', 'apertures', 'val', 'unc')}, where, [('distance', 'DISTANCE')])
-    fw, fr = repo.func('convolved_fluxes.convolved_fluxes', 'ConvolvedFluxes.write'), repo.func('convolved_fluxes.convolved_fluxes', 'ConvolvedFluxes.read')
-    fitsmodel.check_pair(ctx, 'AGREE-3', fw, fr, {k: k for k in ('central_wavelength', 'apertures', 'model_names', 'flux', 'error')}, where, [('central_wavelength', 'FILTWAV')])
+    decided = {'sed': roundtrip.check_sed(ctx, 'AGREE-4', 'PERM-4'), 'cube': roundtrip.check_cube(ctx, 'AGREE-5', 'PERM-5'), 'conv': roundtrip.check_conv(ctx, 'AGREE-3')}
     common.api_literal_rule(ctx, ['sed.helpers'], min_sites=1)
     common.api_rule(ctx, ['sed.helpers', 'sed.sed', 'sed.cube', 'convolved_fluxes.convolved_fluxes', 'utils.io'], min_chains=120)
+    check_axis_pair(ctx)
+    check_get_sed(ctx)
+    if not all(decided.values()):
+        sus = roundtrip.SuspectCtx(ctx, 'the round trip was not decided by interpretation and the syntactic rule, which knows one spelling only, reports')
+        try:
+            syntactic_rules(sus, decided)
+        except AnalysisError as e:
+            ctx.undecided('AGREE-4', 'syntactic fall-back', 'sedfitter/sed', 'structure not recognised: %s' % e)
+
+
+def syntactic_rules(ctx, decided):
+    repo = ctx.repo
+    sw, sr = repo.func('sed.sed', 'SED.write'), repo.func('sed.sed', 'SED.read')
+    if not decided['sed']:
+        fitsmodel.check_pair(ctx, 'AGREE-4', sw, sr, {k: k for k in ('name', 'distance', 'apertures', 'wav', 'nu', 'flux', 'error')}, where, [('distance', 'DISTANCE')])
+    cw, cr = repo.func('sed.cube', 'BaseCube.write'), repo.func('sed.cube', 'BaseCube.read')
+    if not decided['cube']:
+        fitsmodel.check_pair(ctx, 'AGREE-5', cw, cr, {k: k for k in ('distance', 'valid', 'names', 'wav', 'apertures', 'val', 'unc')}, where, [('distance', 'DISTANCE')])
+    fw, fr = repo.func('convolved_fluxes.convolved_fluxes', 'ConvolvedFluxes.write'), repo.func('convolved_fluxes.convolved_fluxes', 'ConvolvedFluxes.read')
+    if not decided['conv']:
+        fitsmodel.check_pair(ctx, 'AGREE-3', fw, fr, {k: k for k in ('central_wavelength', 'apertures', 'model_names', 'flux', 'error')}, where, [('central_wavelength', 'FILTWAV')])
     # ---- reversal
     sed_axes, _ = declared_axes(repo, repo.cls('sed.sed', 'SED'))
     cube_axes, _ = declared_axes(repo, repo.cls('sed.cube', 'SEDCube'))
     Rs = fitsmodel.Reader(sr)
-    check_reversal(ctx, 'PERM-4', ctx.fn(sr), Rs.obj, sed_axes, ['wav', 'nu', 'flux', 'error'])
+    if not decided['sed']:
+        check_reversal(ctx, 'PERM-4', ctx.fn(sr), Rs.obj, sed_axes, ['wav', 'nu', 'flux', 'error'])
     Rc = fitsmodel.Reader(cr)
-    check_reversal(ctx, 'PERM-5', ctx.fn(cr), Rc.obj, cube_axes, ['wav', 'val', 'unc'])
-    check_axis_pair(ctx)
+    if not decided['cube']:
+        check_reversal(ctx, 'PERM-5', ctx.fn(cr), Rc.obj, cube_axes, ['wav', 'val', 'unc'])
+    if decided['sed']:
+        return
     # ---- PERM-6: reordering in SED.write
     W = fitsmodel.Writer(sw)
     sorts = [c for c in calls(sw.node) if isinstance(c.func, ast.Attribute) and c.func.attr == 'sort' and isinstance(c.func.value, ast.Name) and c.func.value.id in W.tables]
@@ -241,11 +275,8 @@ def run(ctx):
                    'the spectral table is reordered by %s but not: %s' % (ordn, bad), 'order-not-shared')
     else:
         ctx.ok('PERM-6', 'SED.write keeps the caller\'s order', where(sw), 'no reordering on write: the reader\'s reversal restores the requested order')
-    # ---- CFG-8
-    n = check_none_guards(ctx, ctx.fn(cr), Rc.obj, 'unc')
-    gs = ctx.fn(repo.func('sed.cube', 'SEDCube.get_sed'))
-    n += check_none_guards(ctx, gs, gs.params[0], 'unc')
-    check_get_sed(ctx)
+
+
 
 
 SE = 'sedfitter/sed/sed.py'
